@@ -14,7 +14,7 @@ import aaverisk_lib as L
 from aaverisk_lib import Case, Exact, close, TOL
 
 PROPERTY = "C11"
-LEAN_MODULES = ["Proofs.C11", "Proofs.C11.Max", "Proofs.C11.Invariant", "Proofs.C11.Refine", "Proofs.C11.RefineWithdraw", "Proofs.C11.RefineInvariant", "Proofs.C12.Admitted", "Proofs.C11.AllOps"]
+LEAN_MODULES = ["Proofs.C11", "Proofs.C11.Max", "Proofs.C11.Invariant", "Proofs.C11.Refine", "Proofs.C11.RefineWithdraw", "Proofs.C11.RefineInvariant", "Proofs.C12.Admitted", "Proofs.C11.AllOps", "Proofs.C11.RefineAllOps"]
 DRIVERS = ["driver_aaverisk"]
 RULE = ("portfolios over the uppercase symbols of the four risk-parameter CSVs (1-3 collateral supplies, 0-2 non-collateral supplies, 0-3 debts, "
         "indices 1..3, prices log-uniform over 11 decades (1e-6 .. 1e5)) in health classes no-debt / healthy / HF = 1 / HF < 1; one call per case: borrow, withdraw, "
